@@ -1,19 +1,21 @@
 #!/bin/bash
-# tools/seed_run.sh <seed-name e.g. C01-1> <check> [check...] : apply the stored seeded change to /repo,
-# run the given quick checks, restore /repo. Prints detected/missed per check and updates meta.json.
+# tools/seed_run.sh <seed-name e.g. C01-1> <check> [check...] : apply the stored seeded change to the
+# scratch worktree /tmp/ev/repo (a mirror of /verif at /tmp/ev/verif is built against it), run the given
+# quick checks there, restore the worktree. /repo and /verif/evidence are not touched.
 set -u
 cd "$(dirname "$0")/.."
 export GOFLAGS=-mod=mod GOPROXY=off GOSUMDB=off GOTOOLCHAIN=local
 S="$1"; shift
-[ -z "$(git -C /repo status --porcelain)" ] || { echo "/repo not clean"; exit 2; }
-git -C /repo apply "/verif/seeded/$S/patch.diff" || exit 2
+tools/alt_sync.sh || exit 2
+[ -z "$(git -C /tmp/ev/repo status --porcelain)" ] || { git -C /tmp/ev/repo checkout -q -- . ; git -C /tmp/ev/repo clean -fdq; }
+git -C /tmp/ev/repo apply "/verif/seeded/$S/patch.diff" || exit 2
 res=""
 for chk in "$@"; do
-  out="$(./run.sh "$chk" quick 2>/dev/null)"; rc=$?
+  out="$(cd /tmp/ev/verif && VERIF_REPO=/tmp/ev/repo ./run.sh "$chk" quick 2>/dev/null)"; rc=$?
   if [ $rc -eq 1 ] && echo "$out" | grep -q "^VIOLATION property=$chk "; then r=detected; elif [ $rc -eq 0 ]; then r=missed; else r="error(rc=$rc)"; fi
   res="$res $chk=$r"
 done
-git -C /repo checkout -q -- . ; git -C /repo clean -fdq
+git -C /tmp/ev/repo checkout -q -- . ; git -C /tmp/ev/repo clean -fdq
 python3 - "seeded/$S/meta.json" "$res" <<'PY'
 import json,sys
 p,res=sys.argv[1:3]
